@@ -24,13 +24,14 @@ RULE = (
 ASSUMPTIONS = [
     "split() with no separator and split('') are outside the statement (explicit separator or regex)",
     "splitlines is judged on texts whose only line boundary is \\n (the method documents newline splitting)",
-    "regex patterns never match the empty string; capture groups are ignored (the method's docstring), so the expected pieces are the text between the matches",
+    "capture groups are ignored (the method's docstring), so the expected pieces are the text between the matches; for group-free patterns this is also compared with re.split",
     "padding added by ljust/rjust without fillchar carries only a shared background (pinned by tests/test_fmtstr.py::test_ljust_rjust); for those characters only 'no invented formatting' is asserted",
 ]
 SHARDS = {"quick": 4, "thorough": 16}
 
 SEPS = [",", " ", "ab", "\n", "::", "a", "x", ", ", "B", ".", "a|B", "[,;]+", "a.b"]
-PATTERNS = [r"\s+", r"[,;]+", r"ab?", r"\d", r"a|B", r"a.b", r"\.", r"(,|;)", r"a(b)?", r"(?:,)(\s)?"]  # "capture groups are ignored"
+PATTERNS = [r"\s+", r"[,;]+", r"ab?", r"\d", r"a|B", r"a.b", r"\.", r"(,|;)", r"a(b)?", r"(?:,)(\s)?",  # "capture groups are ignored"
+            r",?", r"(?=,)", r"\b", r"\s*", r",|"]  # patterns that can match the empty string (re.split splits there too)
 BOTH = ["a|B", "[,;]+", "a.b", "B", ","]  # valid as literal separator and as regular expression
 
 
@@ -133,6 +134,8 @@ def run_case(case):
         evals += 1
         got, err = call(lambda: f.split(pat, regex=True))
         rng = piece_ranges_regex(s, pat)
+        if "(" not in pat.replace("(?", "") and [s[a:b] for a, b in rng] != re.split(pat, s):
+            raise AssertionError(f"harness: range oracle disagrees with re.split for {pat!r} on {s!r}")
         pieces_check("split_regex", [pat], got, err, [s[a:b] for a, b in rng], rng)
     # the same string once as a literal separator and once as a regular expression, in an order that depends on the case
     order = [(b, r) for b in BOTH for r in ((False, True) if (len(s) + len(b)) % 2 else (True, False))]
@@ -186,7 +189,8 @@ def run_case(case):
     # join: text agrees with str.join on the texts
     for items in ([f, "x", f], ["", "a"], ["", ""], [f, "", "x"], ["a", "", ""], [], [""], ["a"], ["", f, ""]):
         evals += 1
-        got, err = call(lambda: f.join(items))
+        it_kind = (len(s) + len(items)) % 3
+        got, err = call(lambda: f.join([items, (x for x in items), iter(items)][it_kind]))
         want = s.join([getattr(x, "s", x) for x in items])
         if err is not None:
             res.viol("join_raised", desc=desc, items=[getattr(x, "s", x) for x in items], error=exc_str(err))
